@@ -255,7 +255,7 @@ func firstPos(ps []tokenPos) tokenPos {
 }
 
 func checkC08(c *core.Ctx) {
-	c.Explainf("C08 (decided clauses). R1: ErrorReader.Read and ErrorWriter.Write store the underlying error into .Err on the err != nil path and return it. R2: nothing else in iohelp touches the underlying stream. R2c: the constructors store the caller's stream itself (no buffering layer that defers writes and their errors). R3: every return of every emitted EncodeBebop/DecodeBebop is the latch (w.Err / r.Err) or the err of a nested call; `return nil` only where no I/O was performed. R4: every nested EncodeBebop / Make<T>(r) is followed at once by `if err != nil { return err }`. R5: no call on the underlying stream has its error assigned to _ (Drain). R6: the constructors return an existing wrapper unchanged, so nested records share the latch. R7: no emitted EncodeBebop/DecodeBebop assigns the error latch itself. R8: after a failed read no stream reader decodes the bytes an earlier read left in the shared scratch (the function tests the error, or ErrorReader.Read clears its destination on every failing path): a stale length prefix read back as a count makes the decoder allocate and loop for elements that are not in the stream before it gets to report the error. NOT decided: 'does not hang' as such; that an error from one Write makes later Writes harmless is the io.Writer contract.")
+	c.Explainf("C08 (decided clauses). R1: ErrorReader.Read and ErrorWriter.Write store the underlying error into .Err on the err != nil path and return it. R2: nothing else in iohelp touches the underlying stream. R2c: the constructors store the caller's stream itself (no buffering layer that defers writes and their errors). R3: every return of every emitted EncodeBebop/DecodeBebop is the latch (w.Err / r.Err) or the err of a nested call; `return nil` only where no I/O was performed. R4: every nested EncodeBebop / Make<T>(r) is followed at once by `if err != nil { return err }`. R5: no call on the underlying stream has its error assigned to _ (Drain). R6: the constructors return an existing wrapper unchanged, so nested records share the latch. R7: no emitted EncodeBebop/DecodeBebop assigns the error latch itself. R9: emitted EncodeBebop/DecodeBebop never call a method of, or hand to a function, the wrapper's underlying w.Writer / r.Reader. R8: after a failed read no stream reader decodes the bytes an earlier read left in the shared scratch (the function tests the error, or ErrorReader.Read clears its destination on every failing path): a stale length prefix read back as a count makes the decoder allocate and loop for elements that are not in the stream before it gets to report the error. NOT decided: 'does not hang' as such; that an error from one Write makes later Writes harmless is the io.Writer contract.")
 	gr := startGen(c)
 	if gr == nil {
 		return
@@ -298,6 +298,29 @@ func checkC08(c *core.Ctx) {
 				return true
 			})
 			c.Check("R7", m+" never assigns the error latch "+kindName(rf.Spec.Kind), anchorPos(gr.p, rf.Spec.Kind, m), true, "")
+			// R9: emitted code moves bytes through the wrapper only. w.Writer /
+			// r.Reader may be saved, limited and restored (the decoders' body
+			// limiter), never handed to a function or have a method called on
+			// them: a write or read that goes round the wrapper is not latched
+			under := map[string]string{mSW: "w.Writer", mSR: "r.Reader"}[m]
+			bypass := ""
+			ast.Inspect(mf.Decl.Body, func(nd ast.Node) bool {
+				call, ok := nd.(*ast.CallExpr)
+				if !ok {
+					return true
+				}
+				for _, a := range call.Args {
+					if wire.Canon(a) == under {
+						bypass = wire.Canon(call.Fun) + "(" + under + ", …)"
+					}
+				}
+				if sel, ok := ast.Unparen(call.Fun).(*ast.SelectorExpr); ok && wire.Canon(sel.X) == under {
+					bypass = wire.Canon(call.Fun) + "(…)"
+				}
+				return true
+			})
+			c.Check("R9", m+" moves bytes only through the error-latching wrapper "+kindName(rf.Spec.Kind), anchorPos(gr.p, rf.Spec.Kind, m), bypass == "",
+				"emitted code calls "+bypass+": what goes to the underlying stream directly is not seen by the wrapper, so its failure is never recorded and the method returns a nil latch — "+rf.where(mf.Decl.Pos()))
 		}
 	}
 	gr.sample(2)
